@@ -89,6 +89,12 @@ def body():
             cases, n_exh, n_in = rb, len(rb), len(rb)
         # (B) real code
         drv = V.build_driver("claimcall")
+        if rb is None:
+            # a transaction can be included again after a reorg and execute differently: every fourth case re-uses the
+            # transaction hash of the event before it (same hash, this case's call tree)
+            for i, c in enumerate(cases):
+                if i > 0 and rng.random() < 0.25:
+                    c["sametx"] = True
         cf, tf = sc.path("cases.json"), sc.path("trace.ndjson")
         json.dump(cases, open(cf, "w"))
         V.run_driver(drv, ["-in", cf, "-out", tf])
